@@ -118,7 +118,33 @@ def project(cmd):
     return [cmd.name, tags, pos, tests, children]
 
 
-def run_parse(p, data):
+def roundtrip(p, tree):
+    """C04 on the implementation alone: serialise p.result, re-parse, compare, serialise again"""
+    rt = {}
+    try:
+        text = tosieve_text(p.result)
+    except Exception as e:  # noqa
+        return {"problem": "tosieve raised %s: %s" % (type(e).__name__, str(e)[:80])}
+    rt["text"] = text
+    p2 = new_parser()
+    o2 = run_parse(p2, text.encode("utf-8"))
+    if o2["verdict"] is not True:
+        rt["problem"] = "serialised script not accepted again: %s %s" % (o2["cls"], o2.get("error") or o2.get("exc"))
+        return rt
+    if o2["tree"] != tree:
+        rt["problem"] = "serialised script parses to a different tree"
+        return rt
+    try:
+        text2 = tosieve_text(p2.result)
+    except Exception as e:  # noqa
+        rt["problem"] = "second tosieve raised %s" % type(e).__name__
+        return rt
+    if text2 != text:
+        rt["problem"] = "serialisation is not a fixed point"
+    return rt
+
+
+def run_parse(p, data, rt=False):
     """-> outcome dict: cls in {ret, raise, hang}; verdict; error; error_pos; yields; tree"""
     out = {"cls": "ret", "verdict": None, "error": None, "error_pos": None, "yields": 0, "tree": None}
     p.error = None
@@ -160,9 +186,28 @@ def run_parse(p, data):
             out["tree"] = [project(c) for c in p.result]
         except Exception as e:  # noqa
             out["tree"] = ["!projection failed", type(e).__name__ + ": " + str(e)[:80]]
+        if rt:
+            out["rt"] = roundtrip(p, out["tree"])
     elif r is False:
         out["error"] = p.error
         out["error_pos"] = p.error_pos
+    return out
+
+
+def named_args(result, cname):
+    """for every node called cname: {argument name: projected value} ([tag, parameter] for tags)"""
+    out = []
+    for top in result:
+        for node in top.walk():
+            if node.name != cname:
+                continue
+            m = {}
+            for name, value in node.arguments.items():
+                if isinstance(value, str) and value.startswith(":"):
+                    m[name] = [value.lower(), proj_value(node.extra_arguments[name]) if name in node.extra_arguments else None]
+                else:
+                    m[name] = proj_value(value)
+            out.append(m)
     return out
 
 
